@@ -11,7 +11,9 @@ import re
 import common
 from propbase import PropBase, model_cfg
 
-WANT = ["txns", "identity", "balance", "balgrp", "register", "equity"]
+REPORTS = ["txns", "identity", "balance", "balgrp", "register", "equity"]
+WANT = REPORTS + ["probe"]
+PROBE_COMMS = [""] + common.COMMS + ["SEK", "NOK", "XAU"]
 LABELS = ["S", "L", "E"]
 
 KINDS = ["all_declared", "leaf_gap_desc", "post_to_parent", "undecl_acct", "undecl_comm_posting",
@@ -288,7 +290,12 @@ class C12(PropBase):
             cfg.update(extra)
             runs.append({"label": label, "cfg": cfg})
         text = common.render_journal(txns, common.gen_layout(rng))
-        case = {"op": "strict", "kind": kind, "txns": txns, "text": text, "want": WANT, "runs": runs}
+        ua, _, _ = used_names(txns)
+        pa = set(ua) | {a for a in accts if a not in INVALID_ACCOUNTS}
+        pa |= {q for a in list(pa) for q in ancestors(a)}
+        pa |= {common.gen_account(rng), rng.choice(sorted(pa)) + ":zz"}
+        case = {"op": "strict", "kind": kind, "txns": txns, "text": text, "want": WANT, "runs": runs,
+                "probe": {"accounts": sorted(pa), "commodities": PROBE_COMMS}}
         if invalid:
             case["invalid_chart"] = invalid
         return case
@@ -307,7 +314,7 @@ class C12(PropBase):
 
     def model_case(self, case):
         c = {k: v for k, v in case.items() if k not in ("text",)}
-        c["want"] = ["txns"]
+        c["want"] = ["txns", "probe"]
         runs = []
         for r in case["runs"]:
             cfg = r["cfg"]
@@ -349,6 +356,16 @@ class C12(PropBase):
                     if x != y:
                         return "run %s: accepted transactions differ: impl=%s model=%s" % (lab, str(x)[:500], str(y)[:500])
                 return "run %s: number of accepted transactions differs" % lab
+            pa, pb = i["out"].get("probe", {}), m["out"].get("probe", {})
+            if pa.get("r") != "OK" or pb.get("r") != "OK":
+                return "run %s: probe output status impl=%s model=%s" % (lab, pa.get("r"), pb.get("r"))
+            if pa["v"] != pb["v"]:
+                if pa["v"]["comms"] != pb["v"]["comms"]:
+                    return "run %s: known commodities after the load differ: impl=%s model=%s (%s)" % (
+                        lab, pa["v"]["comms"], pb["v"]["comms"], case["probe"]["commodities"])
+                for acct, x, y in zip(case["probe"]["accounts"], pa["v"]["accts"], pb["v"]["accts"]):
+                    if x != y:
+                        return "run %s: account lookup of '%s' after the load differs: impl=%s model=%s" % (lab, acct, x, y)
         return None
 
     # ---- the property statement on the implementation alone
@@ -371,7 +388,7 @@ class C12(PropBase):
         self.remember(case)
 
         def outputs_fail(lab, r, sigbase):
-            for w in WANT:
+            for w in REPORTS:
                 o = r["out"].get(w, {})
                 if o.get("r") != "OK":
                     return {"sig": "%s:%s" % (sigbase, "report" if w in ("balance", "balgrp", "equity") else w),
@@ -379,12 +396,25 @@ class C12(PropBase):
             return None
 
         def outputs_differ(la, ra, lb, rb, sigbase):
-            for w in WANT:
+            for w in REPORTS:
                 if canon_output(w, ra["out"][w].get("v")) != canon_output(w, rb["out"][w].get("v")):
                     return {"sig": "%s:%s" % (sigbase, w),
                             "what": "output %s differs between run %s and run %s" % (w, la, lb)}
             return None
 
+        # every ancestor of every posted account can be looked up by reports (both modes)
+        pidx = {a: k for k, a in enumerate(case["probe"]["accounts"])}
+        cidx = {c: k for k, c in enumerate(case["probe"]["commodities"])}
+        for lab, r in runs.items():
+            if r.get("r") != "OK" or r["out"].get("probe", {}).get("r") != "OK" or r["out"]["txns"].get("r") != "OK":
+                continue
+            rows = r["out"]["probe"]["v"]["accts"]
+            for t in r["out"]["txns"]["v"]:
+                for p in t["posts"]:
+                    for q in ancestors(p["acct"]) + [p["acct"]]:
+                        if q in pidx and p["comm"] in cidx and rows[pidx[q]][cidx[p["comm"]]] != "1":
+                            return {"sig": "ancestor-not-reportable:" + ("strict" if lab == "S" else "lax"),
+                                    "what": "run %s: account '%s' (ancestor of the posted '%s', commodity '%s') is unknown to get_txn_account" % (lab, q, p["acct"], p["comm"])}
         # (b) strict off: nothing depends on the charts
         if L.get("r") != E.get("r"):
             return {"sig": "lax-acceptance-depends-on-chart",
@@ -442,7 +472,8 @@ class C12(PropBase):
                 "account, posting commodity, closing-price-only commodity, opening-only commodity, tag / report commodity "
                 "and price-file commodities declared or not / duplicate declarations / empty commodity with the permission "
                 "on and off / invalid chart entries / equity export with declared or undeclared equity account / random "
-                "subsets); each case is run three times (strict, lax, lax with empty charts) through op `strict`; "
+                "subsets); each case is run three times (strict, lax, lax with empty charts) through op `strict`, with the outputs "
+                "txns/identity/balance/balance-group/register/equity and a probe of the charts after the load; "
                 "non-trivial = lax mode accepts the journal and the account chart is not empty; distinct = sha256 of the "
                 "implementation case line")
 
@@ -451,7 +482,9 @@ class C12(PropBase):
             "modelled, not verified: lexical validity of chart entries (`AccountTreeNode::from`, `Commodity::from`; such cases "
             "are classified by the oracle, not compared), TOML/config decoding, the price-file grammar (the model gets the "
             "commodity pair of every entry), the text grammar of journals (AST-level tie); reports/exports are compared "
-            "between runs of the implementation (oracle), not with the model"]
+            "between runs of the implementation (oracle), not with the model",
+            "read-only hook tackler_core::verif_hooks::settings_knows_txn_account (fixes/hook-c12-settings-probe.diff) wraps the "
+            "crate-private Settings::get_txn_account for the probe output"]
 
     def assumptions(self):
         return ["chart entries are lexically valid names (otherwise Settings::try_from fails: oracle class invalid_chart)",
